@@ -139,9 +139,21 @@ class PCMDataPacket(object):
     ):
         self.channel_specific_word: int = 0
         self._ipts_source: typing.Optional[int] = ipts_source
-        self.minor_frame_size_bytes: typing.Optional[int] = minor_frame_size_bytes
+        self._minor_frame_size_detected: typing.Optional[int] = None
+        self.minor_frame_size_bytes = minor_frame_size_bytes
         self.syncword = syncword
         self.minor_frames: typing.List[PCMMinorFrame] = []
+
+    @property
+    def minor_frame_size_bytes(self) -> typing.Optional[int]:
+        """The minor frame size in bytes: the size assigned by the user or, failing that, the size worked out by the last unpack"""
+        if self._minor_frame_size_assigned is not None:
+            return self._minor_frame_size_assigned
+        return self._minor_frame_size_detected
+
+    @minor_frame_size_bytes.setter
+    def minor_frame_size_bytes(self, val: typing.Optional[int]) -> None:
+        self._minor_frame_size_assigned = val
 
     def unpack(self, buffer: bytes, extract_sync_sfid: bool = False) -> bool:
         """
@@ -154,6 +166,8 @@ class PCMDataPacket(object):
         channel_specific_len = 4
         throughput_mode = bool(self.channel_specific_word & MODE_THROUGHPUT == MODE_THROUGHPUT)
         alignment_mode = int(self.channel_specific_word & MODE_ALIGNMENT == MODE_ALIGNMENT)
+        self.minor_frames = []
+        self._minor_frame_size_detected = None
         if throughput_mode:
             minor_frame = PCMMinorFrame(throughput=True, alignment=alignment_mode)
             minor_frame.unpack(buffer[channel_specific_len:])
@@ -161,7 +175,7 @@ class PCMDataPacket(object):
         else:
             offset = channel_specific_len
             if self.minor_frame_size_bytes is None and self.syncword is None:
-                self.minor_frame_size_bytes = (
+                self._minor_frame_size_detected = (
                     len(buffer)
                     - PCMMinorFrame.TS_LEN
                     - PCMMinorFrame.DATA_HEADER_LEN[alignment_mode]
@@ -173,14 +187,14 @@ class PCMDataPacket(object):
                 sync_word_offsets = kmp.search(buffer, struct.pack(">I", self.syncword))
                 # More than one sync word. So split the payload
                 if len(sync_word_offsets) < 2:
-                    self.minor_frame_size_bytes = (
+                    self._minor_frame_size_detected = (
                         len(buffer)
                         - PCMMinorFrame.TS_LEN
                         - PCMMinorFrame.DATA_HEADER_LEN[alignment_mode]
                         - channel_specific_len
                     )
                 else:
-                    self.minor_frame_size_bytes = (
+                    self._minor_frame_size_detected = (
                         sync_word_offsets[1]
                         - sync_word_offsets[0]
                         - PCMMinorFrame.TS_LEN
